@@ -612,6 +612,7 @@ func checkEscaper(w *World, c *Check, rule string) {
 		return kv == k
 	}
 	nTable := 0
+	sawU00XX := false
 	// the escape table may sit in the loop itself or in a helper the loop calls with the buffer and the byte under
 	// inspection (writeEscaped(e, b)): the helper's blocks are scanned with its byte parameter as the subject
 	type tableScope struct {
@@ -746,6 +747,7 @@ func checkEscaper(w *World, c *Check, rule string) {
 				if strings.TrimPrefix(prefix, `\`) == "u00" {
 					key := name + ":table:u00XX"
 					nTable++
+					sawU00XX = true
 					if hexOK(ws[1].Common().Args[1], isCurByte, token.SHR, 4) && hexOK(ws[2].Common().Args[1], isCurByte, token.AND, 15) {
 						c.ok(rule, key, pos, "\\u00 + high nibble + low nibble from the 0-9a-f table")
 					} else {
@@ -758,6 +760,13 @@ func checkEscaper(w *World, c *Check, rule string) {
 					continue
 				}
 				prefix := constant.StringVal(k.Value)
+				// a \uXXXX escape of the BYTE under inspection with a single variable digit: only right for bytes below 0x10
+				if bare := strings.TrimPrefix(prefix, `\`); strings.HasPrefix(bare, "u") && len(bare) == 4 && hexOK(ws[1].Common().Args[1], isCurByte, token.AND, 15) {
+					nTable++
+					c.bad(rule, name+":table:u00XX", pos, fmt.Sprintf("the escape %q + one hex digit carries only the low nibble of the byte: every byte from 0x10 up that takes this branch (0x10-0x1f, and <, >, & when HTML escaping is on) is written as the escape of a different character", prefix))
+					sawU00XX = true
+					continue
+				}
 				if strings.HasPrefix(prefix, `\u`) && len(prefix) == 5 {
 					key := name + ":table:" + strings.TrimPrefix(prefix, `\`) + "X"
 					nTable++
@@ -806,6 +815,90 @@ func checkEscaper(w *World, c *Check, rule string) {
 				}
 			}
 		}
+	}
+	// ---- (skip) a byte goes round the loop unwritten (left for the next flush to copy verbatim) only because a safe
+	// table said so. Any other reason to skip an ASCII byte — "this backslash starts something that is already an
+	// escape" — copies bytes into the string that a JSON parser reads as something else.
+	{
+		isTableLoad := func(v ssa.Value) bool {
+			ld, ok := v.(*ssa.UnOp)
+			if !ok || ld.Op != token.MUL {
+				return false
+			}
+			ia, ok := ld.X.(*ssa.IndexAddr)
+			if !ok || !isCurByte(ia.Index) {
+				return false
+			}
+			_, isGlobal := ia.X.(*ssa.Global)
+			return isGlobal
+		}
+		writes := func(b *ssa.BasicBlock) bool {
+			for _, in := range b.Instrs {
+				if _, ok := isWriteOrFlush(in); ok {
+					return true
+				}
+				if call, ok := in.(*ssa.Call); ok {
+					for _, a := range call.Common().Args {
+						if isBuf(a) {
+							return true
+						}
+					}
+				}
+			}
+			return false
+		}
+		// the ASCII region: entered on the true side of a comparison of the byte with a constant bound
+		for _, rb := range esc.Blocks {
+			if !inLoop[rb] {
+				continue
+			}
+			iff, ok := rb.Instrs[len(rb.Instrs)-1].(*ssa.If)
+			if !ok {
+				continue
+			}
+			cmp, ok := iff.Cond.(*ssa.BinOp)
+			if !ok || cmp.Op != token.LSS || !isCurByte(cmp.X) {
+				continue
+			}
+			if _, isConst := cmp.Y.(*ssa.Const); !isConst {
+				continue
+			}
+			entry := rb.Succs[0]
+			seen := map[*ssa.BasicBlock]bool{entry: true}
+			work := []*ssa.BasicBlock{entry}
+			var via *ssa.BasicBlock
+			for len(work) > 0 && via == nil {
+				x := work[len(work)-1]
+				work = work[:len(work)-1]
+				if writes(x) {
+					continue
+				}
+				xi, isIf := x.Instrs[len(x.Instrs)-1].(*ssa.If)
+				for si, sc := range x.Succs {
+					if isIf && si == 0 && isTableLoad(xi.Cond) {
+						continue // the safe tables say so
+					}
+					if sc == H {
+						via = x
+						break
+					}
+					if !inLoop[sc] || seen[sc] {
+						continue
+					}
+					seen[sc] = true
+					work = append(work, sc)
+				}
+			}
+			key := name + ":skip"
+			if via != nil {
+				c.bad(rule, key, w.InstrPos(via.Instrs[len(via.Instrs)-1]), "an ASCII byte can go round the escaper loop unwritten (to be copied verbatim by a later flush) without a safe table having cleared it: bytes the tables mark for escaping — a backslash, a quote, a control character — reach the output as they are, so the emitted string decodes to something other than the text held")
+			} else {
+				c.ok(rule, key, w.InstrPos(iff), "ASCII bytes are skipped only on the word of the safe tables")
+			}
+		}
+	}
+	if !sawU00XX {
+		c.bad(rule, name+":table:u00XX", w.FuncPos(esc), "no \\u00XX escape (u00 + high nibble + low nibble of the byte) was found in the escaper: control characters have no other valid representation in a JSON string")
 	}
 	if nTable < 5 {
 		c.bad(rule, name+":table", w.FuncPos(esc), fmt.Sprintf("only %d escape forms recognised in the escaper (expected the short escapes, the identity escape, \\u00XX and \\u202X)", nTable))
